@@ -106,6 +106,8 @@ pub enum ZOp {
     TruncateFront(ZI),
     Clear,
     Extend(u8),
+    /// fill / fill_with / fill_spare / fill_spare_with (their cost grows with the free space: small capacities only)
+    Fill(u8),
     ExtendFromSlice(u8),
     MakeContiguous,
     /// drain(range) with `steps` alternating next / next_back calls, then dropped
@@ -334,6 +336,34 @@ pub fn run_zcase(c: &ZCase) -> Result<u64, String> {
                     let m = *m as usize;
                     guard("extend", || b.extend_dyn(&mut (0..m).map(|_| Unit::new())))?;
                     len = if n == 0 { 0 } else { (len + m).min(n) };
+                }
+                ZOp::Fill(kind) => {
+                    if n <= 64 {
+                        let before_created = Unit::created();
+                        let before_dropped = Unit::dropped();
+                        let free = n - len;
+                        match kind % 4 {
+                            0 => guard("fill", || b.fill(Unit::new()))?,
+                            1 => guard("fill_with", || b.fill_with(&mut || Unit::new()))?,
+                            2 => guard("fill_spare", || b.fill_spare(Unit::new()))?,
+                            _ => guard("fill_spare_with", || b.fill_spare_with(&mut || Unit::new()))?,
+                        }
+                        // elements that must have been made: one per slot filled (fill / fill_with replace everything; when
+                        // there is nothing to fill the value handed to fill_spare is simply destroyed); destroyed: the replaced ones
+                        let (slots, replaced) = if kind % 4 < 2 { (n, len) } else { (free, 0) };
+                        let made = Unit::created() - before_created;
+                        let gone = Unit::dropped() - before_dropped;
+                        let by_value = kind % 2 == 0;
+                        let want_made = if by_value { slots.max(1) } else { slots } as u64;
+                        let want_gone = replaced as u64 + if by_value && slots == 0 { 1 } else { 0 };
+                        // extra clone-and-destroy pairs would be legal, so only the balance and the minimum are demanded
+                        if made < want_made || gone < want_gone || made - want_made != gone - want_gone {
+                            return Err(format!(
+                                "{op:?} on {len} of {n} zero-sized elements: {made} elements were created and {gone} destroyed during the call, expected {want_made} and {want_gone} (plus matching pairs)"
+                            ));
+                        }
+                        len = n;
+                    }
                 }
                 ZOp::ExtendFromSlice(m) => {
                     let src: Vec<Unit> = (0..*m).map(|_| Unit::new()).collect();
@@ -601,6 +631,10 @@ pub fn all_ops() -> Vec<ZOp> {
         ZOp::MakeContiguous,
         ZOp::Views,
         ZOp::CloneAndCompare,
+        ZOp::Fill(0),
+        ZOp::Fill(1),
+        ZOp::Fill(2),
+        ZOp::Fill(3),
     ];
     for z in ZIS {
         ops.push(ZOp::Remove(z));
